@@ -210,6 +210,10 @@ func streamInfoTWCC(ssrc uint32) *interceptor.StreamInfo {
 // addressed stream have just used, so NACKs and feedback refer to packets that are still in the histories.
 func rtcpInput(round uint32, recent uint16) []byte {
 	base := recent - 6
+	tcc := &rtcp.TransportLayerCC{SenderSSRC: 9, MediaSSRC: 1, BaseSequenceNumber: base, PacketStatusCount: 3, ReferenceTime: round & 0xFFFFFF, FbPktCount: uint8(round),
+		PacketChunks: []rtcp.PacketStatusChunk{&rtcp.RunLengthChunk{PacketStatusSymbol: rtcp.TypeTCCPacketReceivedSmallDelta, RunLength: 3}},
+		RecvDeltas:   []*rtcp.RecvDelta{{Type: rtcp.TypeTCCPacketReceivedSmallDelta, Delta: 250}, {Type: rtcp.TypeTCCPacketReceivedSmallDelta, Delta: 250}, {Type: rtcp.TypeTCCPacketReceivedSmallDelta, Delta: 250}}}
+	tcc.Header = rtcp.Header{Padding: true, Count: rtcp.FormatTCC, Type: rtcp.TypeTransportSpecificFeedback, Length: tcc.Len()/4 - 1}
 	pkts := []rtcp.Packet{
 		&rtcp.ReceiverReport{SSRC: 9, Reports: []rtcp.ReceptionReport{{SSRC: 1, LastSequenceNumber: uint32(base), LastSenderReport: 1, Delay: 1}}},
 		&rtcp.TransportLayerNack{SenderSSRC: 9, MediaSSRC: 1 + round%2, Nacks: []rtcp.NackPair{{PacketID: base, LostPackets: 0x5}}},
@@ -217,14 +221,15 @@ func rtcpInput(round uint32, recent uint16) []byte {
 			MediaSSRC: 1 + round%2, BeginSequence: base,
 			MetricBlocks: []rtcp.CCFeedbackMetricBlock{{Received: true, ArrivalTimeOffset: 10}, {Received: false}, {Received: true, ArrivalTimeOffset: 3}, {Received: true, ArrivalTimeOffset: 1}},
 		}}},
-		&rtcp.TransportLayerCC{SenderSSRC: 9, MediaSSRC: 1, BaseSequenceNumber: base, PacketStatusCount: 3, ReferenceTime: round, FbPktCount: uint8(round),
-			PacketChunks: []rtcp.PacketStatusChunk{&rtcp.RunLengthChunk{PacketStatusSymbol: rtcp.TypeTCCPacketReceivedSmallDelta, RunLength: 3}},
-			RecvDeltas:   []*rtcp.RecvDelta{{Type: rtcp.TypeTCCPacketReceivedSmallDelta, Delta: 250}, {Type: rtcp.TypeTCCPacketReceivedSmallDelta, Delta: 250}, {Type: rtcp.TypeTCCPacketReceivedSmallDelta, Delta: 250}}},
+		tcc,
 		&rtcp.SenderReport{SSRC: 1 + round%2, NTPTime: uint64(round) << 32, RTPTime: round * 3000, PacketCount: round, OctetCount: round * 100},
 	}
 	b, err := rtcp.Marshal(pkts)
 	if err != nil {
 		panic(err)
+	}
+	if _, err := rtcp.Unmarshal(b); err != nil {
+		panic("c10race builds RTCP that does not parse: " + err.Error())
 	}
 
 	return b
@@ -253,7 +258,7 @@ func stress(t target, d time.Duration, nW, nR, nK int) error {
 	sink := interceptor.RTPWriterFunc(func(*rtp.Header, []byte, interceptor.Attributes) (int, error) { return 0, nil })
 	rtcpSink := interceptor.RTCPWriterFunc(func([]rtcp.Packet, interceptor.Attributes) (int, error) { return 0, nil })
 	_ = icpt.BindRTCPWriter(rtcpSink)
-	var rtcpRound atomic.Uint32
+	var rtcpRound, dbg atomic.Uint32
 	seqs := make([]atomic.Uint32, 4)
 	rtcpReader := icpt.BindRTCPReader(interceptor.RTCPReaderFunc(func(b []byte, a interceptor.Attributes) (int, interceptor.Attributes, error) {
 		round := rtcpRound.Add(1)
@@ -305,7 +310,10 @@ func stress(t target, d time.Duration, nW, nR, nK int) error {
 			defer wg.Done()
 			buf := make([]byte, 1500)
 			for !stop.Load() {
-				_, _, _ = rtcpReader.Read(buf, nil)
+				_, attr, err := rtcpReader.Read(buf, nil)
+				if os.Getenv("C10RACE_DEBUG") != "" && dbg.Add(1) < 4 {
+					fmt.Fprintf(os.Stderr, "debug rtcp read: attr=%v err=%v\n", attr, err)
+				}
 				time.Sleep(50 * time.Microsecond)
 			}
 		}()
